@@ -199,6 +199,31 @@ def run(tier, seed, rng):
         for here, why, val in out['bad'][nbad:]:
             failures.append(dict(kind='oracle', sig='control', what=f"{here}: {why}", classes=pktprops.class_source(groups, r['group']),
                                  cls=decl.cname(r['c']), raw=r['raw'].hex(), offset=r['offset'], observed=r['outcome']['ok']))
+    # ---- one table of selectable fields shared by several references (the selector hands out the SAME Field instance to each):
+    # every reference stores what it parsed under its own name, whatever the order in which the options are met
+    ssrc = ("TABLE = {1: Int(1), 2: Data(2), 3: Int(2)}\n"
+            "class Two(Packet):\n    k = Int(1)\n    j = Int(1)\n    src = Ref(k.chooses(TABLE), default=0)\n    dst = Ref(j.chooses(TABLE), default=0)\n"
+            "class Many(Packet):\n    k = Int(1)\n    one = Ref(k.chooses(TABLE), default=0)\n    xs = Ref(k.chooses(TABLE), default=0).repeated(count=2)\n    t = Int(1)\n")
+    enc = {1: lambda v: bytes([v]), 2: lambda v: v, 3: lambda v: v.to_bytes(2, 'big')}
+    vals = {1: [5, 6, 7], 2: [b'ab', b'cd', b'ef'], 3: [258, 772, 1286]}
+    scases, swant = [], []
+    for k in (1, 2, 3):
+        for j in (3, 1, 2):
+            a, b = vals[k][0], vals[j][1]
+            scases.append(dict(cls='Two', op='roundtrip', raw=(bytes([k, j]) + enc[k](a) + enc[j](b)).hex(), offset=0))
+            swant.append([['k', k], ['j', j], ['src', a], ['dst', b]])
+    for k in (2, 1, 3, 1):
+        a, x0, x1 = vals[k]
+        scases.append(dict(cls='Many', op='roundtrip', raw=(bytes([k]) + enc[k](a) + enc[k](x0) + enc[k](x1) + b'\x09').hex(), offset=0))
+        swant.append([['k', k], ['one', a], ['xs', [x0, x1]], ['t', 9]])
+    sres = run_impl(os.path.join(VERIF, 'harness', 'impl_pkt.py'), dict(header=decl.HEADER_PY, blocks=[dict(name='shared', src=ssrc)], modname='c08s', cases=scases))
+    out['shared_selector_table_cases'] = len(scases)
+    cv = lambda x: {'x': x.hex()} if isinstance(x, bytes) else ([cv(y) for y in x] if isinstance(x, list) else x)
+    for c, o, w in zip(scases, sres['outcomes'], swant):
+        want = [[n, cv(v)] for n, v in w]
+        if o.get('ok', {}).get('f') != want or o.get('packed') != {'ok': c['raw']}:
+            failures.append(dict(kind='oracle', sig='control-shared-table', what='references sharing one table of selectable fields: a reference did not store (or re-emit) the value it parsed under its own name',
+                                 classes=ssrc, cls=c['cls'], raw=c['raw'], offset=0, observed=o, required=want))
     bad = out.pop('bad')
     return dict(evaluations=len(records), distinct_nontrivial=out['seq'] + out['opt'] + out['selected'] + out['ref'],
                 rule=("random class tables rich in repeated (count as constant / field / expression / callable, until-callables over the list "
